@@ -30,6 +30,8 @@ DECIDED = [
     "SER-1 the JSON/YAML serialisers cover date, time and datetime values and are not called with value-narrowing options",
     "RET-1 (shared with C05) the dtype converters return normal forms",
     "LOOP-1 reader and writer loops carry no state between sibling entries",
+    "ID-3 (C04 PROV-2) the constructors keep a given id as str(uuid.UUID(id)): the id that was saved is the id after loading",
+    "GET-1 the getters the writer reads return the object's own state (no inherited value is written as if it were set)",
     "READ-1 the dictionary reader only constructs: it never resolves links / includes (finalize, merge, clean) on what it read",
     "ORD-3 (dict half) parse_cardinality(list(c)) == c for every normal-form cardinality c",
 ]
@@ -373,7 +375,8 @@ def run(prog, rep):
               "SER-1", "json.dumps uses JSONDateTimeSerializer", "ok", "json.dumps is called without the date/time encoder", ts.where)
 
     # the dump calls must not narrow the accepted value domain
-    NARROWING = {"allow_nan": False, "skipkeys": True, "check_circular": False}
+    # allow_unicode=True makes PyYAML write U+0085 (NEL) raw inside a quoted scalar, which its own loader folds into a space
+    NARROWING = {"allow_nan": False, "skipkeys": True, "check_circular": False, "allow_unicode": True}
     for c in [c0 for c0 in calls_in(ts.node) if call_name(c0) in ("json.dumps", "json.dump", "yaml.dump", "yaml.safe_dump")]:
         narrowing = [k.arg for k in c.keywords if k.arg in NARROWING and isinstance(k.value, ast.Constant) and k.value.value == NARROWING[k.arg]]
         rep.check(not narrowing, "SER-1", "%s accepts every value the model holds" % call_name(c), "no narrowing option",
@@ -392,6 +395,10 @@ def run(prog, rep):
                 funcs.append(h)
     loop_carried_state(prog, rep, funcs, "LOOP-1")
 
+    from ..report import import_verdicts
+    import_verdicts(prog, rep, "C04", ("PROV-2",), "ID-3",
+                    "the readers hand the stored id to the constructors: the only transformation on the way is the canonical spelling of the same UUID")
+    ct.own_state_getters(prog, rep, "GET-1")
     # ---------------------------------------------------------------- READ-1
     reader_constructs_only(prog, rep, [prog.func(q) for q in READER_FUNCS.values()], "READ-1")
 
